@@ -185,6 +185,31 @@ def _build(cfg):
         for a, b in pairs(T):
             s.omega[a, b] = make_omega(cfg['omega']['%s-%s' % (a, b)], s.domain.k)
         return s
+    if cfg.get('assign') == 'edit':
+        # one object assigned to all pairs, then the pairs that differ are EDITED in place through the table (the object is
+        # fetched with the pair key written in reverse-alphabetical order - the user's script does not depend on the order of
+        # the type list - and its attributes are changed); a pair of another class is assigned
+        import json
+        for table, maker in ((s.potential, make_potential), (s.closure, make_closure)):
+            name = 'pot' if table is s.potential else 'clo'
+            specs = [json.dumps(cfg[name]['%s-%s' % (a, b)]) for a, b in pairs(T)]
+            common = max(sorted(set(specs)), key=specs.count)
+            table[T, T] = maker(json.loads(common))
+            for a, b in pairs(T):
+                spec = cfg[name]['%s-%s' % (a, b)]
+                if json.dumps(spec) == common:
+                    continue
+                want = maker(spec)
+                x, y = (a, b) if a >= b else (b, a)
+                have = table[x, y]
+                if type(have) is type(want):
+                    for attr, val in vars(want).items():
+                        setattr(have, attr, val)
+                else:
+                    table[x, y] = want
+        for a, b in pairs(T):
+            s.omega[a, b] = make_omega(cfg['omega']['%s-%s' % (a, b)], s.domain.k)
+        return s
     if cfg.get('assign') == 'setunset':
         # the other tutorial idiom: the pairs that differ are assigned first, table.setUnset(default) fills the rest
         import json
